@@ -20,12 +20,12 @@ CLAIMED = {
 CLAIMED.update({
  "C03": ("exploration", "deterministic simulation: seeded scheduler over parked real threads + brute-force linearizability search against the reference model", "2-4 overlapping requests on 2-3 simulated threads (in-memory; one or several SQLite instances on one directory; HTTP and library entry) under random / sticky / PCT / forced-preemption schedules at storage-call, transaction begin/end, chunk and lock-wait granularity; every batch must have a real-time-respecting order reproducing all responses and the final state; stall faults exercise the busy-timeout path with bounded-liveness check afterwards. In a share of the SQLite batches, and in two dedicated jobs, one thread's requests are served by a server in ANOTHER PROCESS on the same directory (child process, one atomic scheduler step per request), so cross-process locking is real and process-wide state of the code under test is not shared; threads may be sessions (a request's id argument is taken from the previous response of its thread).", "a request served by the other process is never preempted by the parent's threads; known finding F1 (known_findings.json)", "§8 C03"),
  "C04": ("fault_enumeration", "deterministic simulation: shim SQLite VFS, crash image at every mutating VFS call (process-crash + sampled power-loss images), recovery + model comparison", "For each generated history every write/truncate/sync/delete issued while a request executes is a crash point; at each, the process-crash image and m power-loss images (synced content + kept/dropped/torn later writes) are recovered through SqliteStorage::new, integrity-checked, compared with the model state before/after the in-flight request, then served and extended; thorough adds crashes during recovery. Every built-in unix VFS is shimmed under its own name and images include directory entries made outside SQLite's file I/O (lock directories, side files). Crashes while several requests are in flight: scheduled SQLite batches with image capture, where the recovered state must be a commit-order prefix (containing every acknowledged write) of a valid ordering of the batch.", "power-loss subsets are sampled, not enumerated; power-loss model = SQLite's own crash-test assumptions (sync is a barrier, sector-granular tearing); kill -9 is simulated by image capture", "§8 C04"),
- "C05": ("fault_enumeration", "deterministic simulation: fault injection at every storage call (before/after effect) and at VFS calls of every request, on a directory snapshot per request", "For every request of each generated history every storage-trait call is failed before and after taking effect (plus sampled pairs), and VFS calls are failed with I/O error kinds (IOERR, FULL, FSYNC, short read, CANTOPEN, BUSY, NOMEM; single and sticky windows); oracle: error response (or, for absorbed VFS errors, exact model outcome), state == before or == after only past the commit point, follow-up requests served without waiting.", "in-memory backend out of scope (property says persistent backend); VFS injections sampled to 60 per request", "§8 C05"),
+ "C05": ("fault_enumeration", "deterministic simulation: fault injection at every storage call (before/after effect) and at VFS calls of every request, on a directory snapshot per request", "For every request of each generated history every storage-trait call is failed before and after taking effect (plus sampled pairs), and VFS calls are failed with I/O error kinds (IOERR, FULL, FSYNC, CANTOPEN, BUSY, NOMEM; single and sticky windows); SQLITE_INTERRUPT is delivered inside statements (progress handler on every connection: the points between the statements of one storage call); the transaction begin of a request fails 3, 70 or 140 times in a row before the storage recovers; oracle: error response (or, for absorbed VFS errors, exact model outcome), state == before or == after only past the commit point, follow-up requests served without waiting.", "in-memory backend out of scope (property says persistent backend); VFS injections sampled to 60 per request", "§8 C05"),
  "C09": ("exploration", "deterministic simulation: two-run non-interference (multi-client history vs each client's projection re-run alone)", "Multi-client histories that deliberately quote other clients' ids are executed, then each client's own requests are re-run alone on a fresh world with the same clock timeline; responses must be identical modulo renaming of issued ids.", "model trusted for id-role naming", "§8 C09"),
  "C13": ("exploration", "deterministic simulation: lock-step differential run (memory vs SQLite vs SQLite restarted at random points)", "The same symbolic history runs in lock step on the three worlds under one whole-second simulated clock; responses compared modulo id bijection after every step, final states compared.", "histories stay within the storage contract (new_client only for absent clients)", "§8 C13"),
- "C15": ("exploration", "deterministic simulation: grammar-generated malformed-message faults against stateful servers", "Route x method x client-id form x path-id form x content-type form x body class (incl. multi-chunk, dropped connection, exactly 100 MiB and 100 MiB + 1) against servers holding state; never 5xx/panic, refused requests change nothing and (for bad client ids) open no transaction; ambiguous spellings must be refused or served exactly per model.", "100 MiB bodies only on the in-memory backend in the quick tier", "§8 C15"),
+ "C15": ("exploration", "deterministic simulation: grammar-generated malformed-message faults against stateful servers", "Route x method x client-id form x path-id form x content-type form x body class (incl. multi-chunk, dropped connection, slow client on the paused runtime clock, exactly 100 MiB and 100 MiB + 1) x Content-Encoding x conditional/range headers x HTTP version against servers holding state; never 5xx/panic, refused requests change nothing and (for bad client ids) open no transaction; ambiguous spellings must be refused or served exactly per model.", "100 MiB bodies only on the in-memory backend in the quick tier", "§8 C15"),
  "C16": ("exploration", "deterministic simulation: allow-list introduced by restart over populated storage; access-log oracle", "Servers populated without a list are restarted with absent/empty/one/many-id lists; unlisted well-formed requests must get exactly 403 with an empty storage access log and unchanged projection on all four endpoints; listed clients are served per model.", "restart = new WebServer over the same storage object (in-memory) or reopened directory (SQLite)", "§8 C16"),
- "C19": ("exploration", "deterministic simulation as producer: committed corpus of data directories written by the pinned tree (clean, leftover WAL, crash images), opened and extended by the current tree", "Exhaustive over the committed corpus only (40 fixtures x entry x restart-midway): each fixture must open, serve exactly its recorded logical content, accept appended versions and a snapshot, and survive a reopen.", "decides nothing about histories outside the corpus", "§8 C19"),
+ "C19": ("exploration", "deterministic simulation as producer: committed corpus of data directories written by the pinned tree (clean, leftover WAL, crash images), opened and extended by the current tree", "Exhaustive over the committed corpus only (40 fixtures x entry x restart-midway): each fixture (copied into directories that may carry URI-special, blank or non-ASCII names) must open - in half of the cases first in a fresh process -, serve exactly its recorded logical content, accept appended versions and a snapshot, and survive a reopen.", "decides nothing about histories outside the corpus", "§8 C19"),
 })
 
 NA = {
